@@ -153,6 +153,7 @@ func execCert(env Env, t *world.TaskSpec, out *Outcome) {
 	// is every one entailed, where is the first empty clause
 	rup := ref.NewRUP(t.N, t.Clauses)
 	allRUP := true
+	mustAccept := true
 	allEntailed := true
 	firstNotEntailed := ""
 	for _, ln := range t.Lines {
@@ -163,6 +164,12 @@ func execCert(env Env, t *world.TaskSpec, out *Outcome) {
 		c, isClause := ref.ParseCertLine(ln)
 		if !isClause {
 			continue // comment or other non-clause line (generator only emits lines whose first field is not an integer)
+		}
+		if isTautology(c) {
+			// a line containing a variable in both polarities is trivially a consequence, but whether
+			// "derivable by unit propagation" covers it is a matter of reading: acceptance is not
+			// demanded for such a line, nor for what follows it (the checker stops at a rejected line)
+			mustAccept = false
 		}
 		if allRUP && !rup.Check(c) {
 			allRUP = false
@@ -234,7 +241,7 @@ func execCert(env Env, t *world.TaskSpec, out *Outcome) {
 	if valid && !allEntailed {
 		out.fail("C08", "accepted-non-consequence", "[%s] certificate reported valid but line %q is not a logical consequence of the problem", cfg, firstNotEntailed)
 	}
-	if !valid && allRUP {
+	if !valid && allRUP && mustAccept {
 		out.fail("C08", "rejected-rup", "[%s] every line is derivable by unit propagation but the certificate was rejected", cfg)
 	}
 	if allRUP {
@@ -290,4 +297,15 @@ func execBF(env Env, t *world.TaskSpec, out *Outcome) {
 	if err := bf.Dimacs(f, &sb); err != nil {
 		out.fail("C12", "bf-dimacs-error", "%v", err)
 	}
+}
+
+func isTautology(c []int) bool {
+	for i, a := range c {
+		for _, b := range c[i+1:] {
+			if a == -b {
+				return true
+			}
+		}
+	}
+	return false
 }
